@@ -14,7 +14,7 @@
 (* the first clause that disagrees and stops that trace, or moves on.      *)
 (* One verdict line per trace is printed: ACCEPT or REJECT (JSON).         *)
 (***************************************************************************)
-EXTENDS CacheOps, Json, IOUtils, TLCExt
+EXTENDS CacheDispatch, Json, IOUtils, TLCExt
 
 \* constants of the real code (substituted in CacheSeqTrace.cfg)
 tr_QIntStart == <<0, 50000000, 0>>            \* 500000000000000
@@ -28,33 +28,7 @@ NT == Len(Traces)
 VARIABLES tid, l, S, done
 tvars == <<tid, l, S, done>>
 
-B(x) == x = 1                       \* JSON 0/1 -> BOOLEAN
-Fl(e) == <<B(e.a.fx), B(e.a.ft)>>  \* flags: expire_time=, tag=
-
 InitState(c) == EmptyCache(c.policy, c.cull, c.limit, B(c.stats))
-
-\* the operation proper
-Dispatch(St, e) ==
-    CASE e.op = "set"      -> Set(St, e.a.k, e.a.v, e.a.sz, e.a.ttl, e.a.tag, e.now)
-      [] e.op = "add"      -> Add(St, e.a.k, e.a.v, e.a.sz, e.a.ttl, e.a.tag, e.now)
-      [] e.op = "touch"    -> Touch(St, e.a.k, e.a.ttl, e.now)
-      [] e.op = "incr"     -> Incr(St, e.a.k, e.a.d, e.a.df, e.now)
-      [] e.op = "get"      -> Get(St, e.a.k, Fl(e), e.a.mk, e.now)
-      [] e.op = "contains" -> Has(St, e.a.k, e.now)
-      [] e.op = "pop"      -> Pop(St, e.a.k, Fl(e), e.now)
-      [] e.op = "delete"   -> Delete(St, e.a.k, e.a.mk, e.now)
-      [] e.op = "clear"    -> Clear(St)
-      [] e.op = "evict"    -> Evict(St, e.a.tag)
-      [] e.op = "expire"   -> Expire(St, e.now)
-      [] e.op = "push"     -> Push(St, e.a.v, e.a.sz, e.a.p, B(e.a.back), e.a.ttl, e.a.tag, e.now)
-      [] e.op = "pull"     -> Pull(St, e.a.p, B(e.a.back), Fl(e), e.now)
-      [] e.op = "peek"     -> Peek(St, e.a.p, B(e.a.back), Fl(e), e.now)
-      [] e.op = "peekitem" -> PeekItem(St, B(e.a.last), Fl(e), e.now)
-      [] e.op = "len"      -> Length(St)
-      [] e.op = "iter"     -> IF B(e.a.sorted) THEN IterKeys(St, B(e.a.rev)) ELSE Iter(St, B(e.a.rev))
-      [] e.op = "stats"    -> Stats(St, B(e.a.en), B(e.a.rs))
-      [] e.op = "tick"     -> Res(St, RNone, FALSE)
-      [] OTHER             -> Res(St, R("unknown-op", <<>>), FALSE)
 
 ObsKeys(e) == {e.rows[i][1] : i \in DOMAIN e.rows}
 
